@@ -391,7 +391,8 @@ type vfRouteExec struct {
 	faults       int
 	panics       []string
 	closing      bool
-	peersUp      bool // LatePeers scenarios: the intra-proxy streams may be established
+	wmSent       map[[2]int64]bool // (source shard, high watermark) of every watermark-only batch a source has sent
+	peersUp      bool              // LatePeers scenarios: the intra-proxy streams may be established
 	// spawn starts a handler goroutine (plain go at the macro level, a managed goroutine at the micro level)
 	spawn func(name string, f func())
 	// changed is closed (and replaced) on every environment-visible event, for goroutines waiting on a condition
@@ -923,10 +924,81 @@ func (e *vfRouteExec) watermark(s *vfSrc) {
 	}
 	p.anyReturn = true
 	s.lastWasWM = true
+	if e.wmSent == nil {
+		e.wmSent = map[[2]int64]bool{}
+	}
+	e.wmSent[[2]int64{int64(s.idx), s.curHigh}] = true
 	e.logf("S%d sends watermark-only batch high=%d", s.idx, s.curHigh)
 	p.deliver(vfItem{resp: &adminservice.StreamWorkflowReplicationMessagesResponse{
 		Attributes: &adminservice.StreamWorkflowReplicationMessagesResponse_Messages{
 			Messages: &replicationv1.WorkflowReplicationMessages{ExclusiveHighWatermark: s.curHigh, Priority: enumsspb.TASK_PRIORITY_HIGH}}}})
+}
+
+// checkBookkeeping (C05 at the level of a real sender): the proxy-id table of every target stream's sender, as the
+// production debug snapshot shows it, maps each outstanding proxy id back to where it came from - an entry that belongs
+// to a task seen on the wire names that task's source shard and original id; any other entry names a source shard and a
+// value that this source has sent as a watermark-only batch (or a task of it that is still on its way to this target).
+func (e *vfRouteExec) checkBookkeeping() {
+	streams := GetGlobalStreamTracker().GetActiveStreams()
+	sort.Slice(streams, func(i, j int) bool { return streams[i].ID < streams[j].ID })
+	for _, t := range e.tgt {
+		live := 0
+		for _, in := range t.incoming {
+			if !in.returned {
+				live++
+			}
+		}
+		ts := t.cur()
+		if ts == nil || ts.broken || ts.returned || live != 1 {
+			continue
+		}
+		inc := len(t.incoming) - 1
+		me := ClusterShardIDtoString(history.ClusterShardID{ClusterID: vfTgtCluster, ShardID: int32(t.idx)})
+		for _, si := range streams {
+			if si.SenderDebug == nil || (si.ClientShard != me && si.ServerShard != me) || si.Role != StreamRoleSender {
+				continue
+			}
+			for _, en := range si.SenderDebug.EntriesPreview {
+				want := ""
+				for tag, ds := range e.deliv {
+					for _, d := range ds {
+						if d.Tgt == t.idx && d.Inc == inc && d.ProxyID == en.ProxyID {
+							for _, r := range e.returned {
+								if r.Tag == tag {
+									want = fmt.Sprintf("%s/%d", ClusterShardIDtoString(history.ClusterShardID{ClusterID: vfSrcCluster, ShardID: int32(r.Src)}), r.ID)
+								}
+							}
+						}
+					}
+				}
+				got := fmt.Sprintf("%s/%d", en.SourceShard, en.SourceTask)
+				if want != "" {
+					if got != want {
+						e.violate("C05", "sender-table/task-entry-maps-to-the-wrong-origin", fmt.Sprintf("target %d stream #%d: proxy id %d was given to task %s, the sender's table maps it to %s", t.idx, inc, en.ProxyID, want, got))
+					}
+					continue
+				}
+				ok := false
+				for _, src := range e.src {
+					ss := ClusterShardIDtoString(history.ClusterShardID{ClusterID: vfSrcCluster, ShardID: int32(src.idx)})
+					if en.SourceShard != ss {
+						continue
+					}
+					if e.wmSent[[2]int64{int64(src.idx), en.SourceTask}] {
+						ok = true
+					}
+					for _, r := range e.returned {
+						if r.Src == src.idx && r.ID == en.SourceTask && r.Tgt == t.idx {
+							ok = true // a task that is still on its way to this target
+						}
+					}
+				}
+				if !ok {
+					e.violate("C05", "sender-table/entry-names-an-origin-that-never-sent-it", fmt.Sprintf("target %d stream #%d: the sender's table maps proxy id %d to %s - no task seen on this stream has that proxy id, and that source shard has sent neither a watermark-only batch nor a task for this target with that value", t.idx, inc, en.ProxyID, got))
+				}
+			}
+		}
+	}
 }
 
 // onSourceAck is the C01/C03/C04 safety oracle, evaluated at every SyncReplicationState the
